@@ -93,6 +93,11 @@ func c05checkToks(toks []c05tok, m *lexx.Model, rep func(sig, detail string)) in
 			break
 		}
 		next = t.after
+		if t.before > total || t.after > total {
+			// more runes delivered than the text has: they come from somewhere else (another scanner's buffer)
+			rep("token-beyond-the-end-of-the-text:"+name, fmt.Sprintf("token %d (%s %q) has extent [%d,%d) in a text of %d runes", i, name, t.lit, t.before, t.after, total))
+			break
+		}
 		if t.tok == influxql.EOF {
 			if t.before != total {
 				cause := "other"
@@ -180,7 +185,41 @@ func c05evalOne(c c05Case) (fs []ev.Finding, slashPoints int, ntoks int) {
 	if next != total && len(fs) == 0 {
 		rep("tiling:incomplete", fmt.Sprintf("tokens cover %d of %d runes", next, total))
 	}
+	if len(fs) == 0 && len(c.Regex) == 0 && len(text) <= 12 {
+		if d := c05afterEOF(text); d != "" {
+			rep("scanner-not-independent-after-EOF", d)
+		}
+	}
 	return fs, sp, len(toks)
+}
+
+// c05afterEOF: the end of input is final and scanners do not share anything. The text is scanned to its EOF, a second
+// scanner over another text is created and started, the first is asked again (EOF every time), and the second must
+// still deliver exactly its own tokens. Several rounds, because a recycled buffer is not handed out every time.
+func c05afterEOF(text string) string {
+	const other = "xyz 12"
+	for round := 0; round < 6; round++ {
+		s1 := influxql.NewScanner(strings.NewReader(text))
+		for i := 0; i <= len(text)+1; i++ {
+			if tok, _, _ := s1.Scan(); tok == influxql.EOF {
+				break
+			}
+		}
+		s2 := influxql.NewScanner(strings.NewReader(other))
+		t0, p0, l0 := s2.Scan()
+		for i := 0; i < 3; i++ {
+			if tok, _, lit := s1.Scan(); tok != influxql.EOF {
+				return fmt.Sprintf("after its EOF, and after another scanner over %q was started, the scanner over %q returned %v %q", other, text, tok, lit)
+			}
+		}
+		t1, _, _ := s2.Scan()
+		t2, p2, l2 := s2.Scan()
+		t3, _, _ := s2.Scan()
+		if t0 != influxql.IDENT || l0 != "xyz" || p0.Char != 0 || t1 != influxql.WS || t2 != influxql.INTEGER || l2 != "12" || p2.Char != 4 || t3 != influxql.EOF {
+			return fmt.Sprintf("a scanner over %q delivered %v %q, %v, %v %q at char %d, %v while an exhausted scanner over %q was asked again", other, t0, l0, t1, t2, l2, p2.Char, t3, text)
+		}
+	}
+	return ""
 }
 
 func minInt(a, b int) int {
@@ -371,7 +410,28 @@ func c05errorPosLog(text string) []ev.Finding {
 		return nil
 	}
 	perr, ok := err.(*influxql.ParseError)
-	if !ok || perr.Found == "" || perr.Message != "" {
+	if !ok {
+		return nil
+	}
+	// the line and column quoted are the error's position, one based, every time the message is produced, and
+	// producing the message does not move the position
+	{
+		before := perr.Pos
+		m1 := perr.Error()
+		m2 := perr.Error()
+		want := fmt.Sprintf("at line %d, char %d", before.Line+1, before.Char+1)
+		switch {
+		case m1 != m2 || perr.Pos != before:
+			return []ev.Finding{{Sig: "parse-error-changes-when-read", Witness: fmt.Sprintf("%q", text),
+				Detail: fmt.Sprintf("Error() = %q, then %q; Pos was %d:%d and is %d:%d afterwards", m1, m2, before.Line, before.Char, perr.Pos.Line, perr.Pos.Char),
+				Case:   c05Case{Bytes: []byte(text), Text: "parse-error-log", Regex: []int{-3}}, Rank: len(text)}}
+		case !strings.HasSuffix(m1, want):
+			return []ev.Finding{{Sig: "parse-error-message-quotes-another-position", Witness: fmt.Sprintf("%q", text),
+				Detail: fmt.Sprintf("Error() = %q but Pos is %d:%d (zero based), i.e. %q", m1, before.Line, before.Char, want),
+				Case:   c05Case{Bytes: []byte(text), Text: "parse-error-log", Regex: []int{-3}}, Rank: len(text)}}
+		}
+	}
+	if perr.Found == "" || perr.Message != "" {
 		return nil
 	}
 	var candidates []string
